@@ -448,6 +448,7 @@ theorem step_rb_other (w : World) (e : Event) (he : ∀ s fu m f t, e ≠ .exec 
     simp only [step]
     split <;> exact ⟨rfl, rfl⟩
   | faucet to coin => exact ⟨rfl, rfl⟩
+  | reseq n => exact ⟨rfl, rfl⟩
 
 theorem wgstep_paid_other (w : World) (g : WGhost) (e : Event) (he : ∀ s fu m f t, e ≠ .exec s fu m f t)
     (hh : ∀ c n co m f, e ≠ .hook c n co m f) : (wgstep w g e).paid = g.paid := by
